@@ -28,6 +28,10 @@ CARRIERS: dict[str, tuple[str, str]] = {
     "subsq": ("![", "]\n"),
     "macro": ("f!(", ")\n"),
     "withm": ("with! a:\n ", "\n"),
+    "macro_open": ("f!(", "\n"),
+    "sub_open": ("$(", "\n"),
+    "f2_open": ('f"', "\n"),
+    "fb_open": ('f"{', "\n"),
     "str1": ("'", "'\n"),
     "str3": ('"""', '"""\n'),
     "paren": ("(", ")\n"),
